@@ -48,6 +48,10 @@ pub struct Sc {
     pub base_len: usize,
     pub page_size: usize,
     pub leftover: Leftover,
+    /// the store is brand new (no salt object): every client's first requests are the salt
+    /// lookup / creation of its constructor, interleaved like everything else
+    #[serde(default)]
+    pub fresh: bool,
     /// the start layout, built once and forked for every execution
     #[serde(skip)]
     pub proto: std::sync::OnceLock<(MemStore, Vec<Uuid>, Option<Uuid>)>,
@@ -55,11 +59,18 @@ pub struct Sc {
 
 impl Sc {
     pub fn new(progs: Vec<Prog>, base_len: usize, page_size: usize, leftover: Leftover) -> Sc {
-        Sc { progs, base_len, page_size, leftover, proto: Default::default() }
+        Sc { progs, base_len, page_size, leftover, fresh: false, proto: Default::default() }
+    }
+
+    pub fn fresh(progs: Vec<Prog>, page_size: usize) -> Sc {
+        Sc { progs, base_len: 0, page_size, leftover: Leftover::None, fresh: true, proto: Default::default() }
     }
 
     fn proto(&self) -> &(MemStore, Vec<Uuid>, Option<Uuid>) {
         self.proto.get_or_init(|| {
+            if self.fresh {
+                return (new_store_unsalted(self.page_size), vec![], None);
+            }
             let store = new_store(self.page_size);
             let base = build_chain(&store, self.base_len);
             let head = base.last().copied().unwrap_or(Uuid::nil());
@@ -128,8 +139,15 @@ async fn add(c: &mut dyn Server, parent: Uuid, payload: Vec<u8>, log: &mut Vec<E
     }
 }
 
-async fn run_prog(store: MemStore, who: usize, prog: Prog, head: Uuid, gate: Arc<dyn Gate>) -> Vec<Ev> {
-    let mut c = client(&store, who, Some(gate), 255).await;
+async fn run_prog(store: MemStore, who: usize, prog: Prog, head: Uuid, gate: Arc<dyn Gate>, fresh: bool) -> Vec<Ev> {
+    let mut c = if fresh {
+        match client_gated(&store, who, Some(gate), 255).await {
+            Ok(c) => c,
+            Err(e) => return vec![Ev::Failed(format!("open: {e}"))],
+        }
+    } else {
+        client(&store, who, Some(gate), 255).await
+    };
     let mut log = vec![];
     let payload = |k: usize| format!("client{who}-v{k}").into_bytes();
     match prog {
@@ -181,13 +199,14 @@ impl Scenario for Sc {
         let (proto, base, leftover_id) = self.proto();
         let store = proto.fork();
         taskchampion::server::verif::set_version_id_counter(Some(1000));
+        taskchampion::server::verif::set_salt_counter(if self.fresh { Some(1) } else { None });
         let base = base.clone();
         let leftover_id = *leftover_id;
         let head = base.last().copied().unwrap_or(Uuid::nil());
         let mut futs: Vec<TaskFut<Vec<Ev>>> = vec![];
         for (i, p) in self.progs.iter().enumerate() {
             let gate: Arc<dyn Gate> = Arc::new(SchedGate { gate: gates[i].clone(), front_puts: false });
-            futs.push(Box::pin(run_prog(store.clone(), i, *p, head, gate)));
+            futs.push(Box::pin(run_prog(store.clone(), i, *p, head, gate, self.fresh)));
         }
         (Ctx { store, base, leftover_id }, futs)
     }
@@ -221,6 +240,11 @@ impl Scenario for Sc {
                     }
                     Ev::Rejected { .. } => rejections += 1,
                     _ => {}
+                }
+            }
+            if self.fresh {
+                if let Some(Ev::Failed(m)) = log.iter().find(|e| matches!(e, Ev::Failed(_))) {
+                    return Err(format!("first-connect-failure: client {i} ({:?}) connecting to a brand-new store at the same time as the others failed (no fault was injected): {m}", self.progs[i]));
                 }
             }
             logs.push(log);
@@ -330,6 +354,11 @@ fn scenarios(tier: Tier) -> Vec<(Sc, usize)> {
             }
         }
     }
+    // brand-new store: the clients' constructors race for the creation of the salt object
+    for progs in [vec![Add, Walk], vec![Add, Add], vec![AddSnap, Walk]] {
+        v.push((Sc::fresh(progs, 2), usize::MAX));
+    }
+    v.push((Sc::fresh(vec![Add, Add, Walk], 2), if q { 2 } else { usize::MAX }));
     // triples and quadruples: preemption-bounded
     // triples: preemption bound 3 in the quick tier, all interleavings in the thorough tier
     let b3 = if q { 3 } else { usize::MAX };
@@ -345,10 +374,31 @@ fn scenarios(tier: Tier) -> Vec<(Sc, usize)> {
     v
 }
 
+/// Several handles connecting to a brand-new store at once (used by C08 as well, whose statement
+/// covers "one or several client handles" from the very first call): explores the fresh-store
+/// scenarios over all interleavings and returns (schedules, violations).
+pub fn first_connect(tier: Tier) -> (u64, Vec<Violation>) {
+    let mut schedules = 0;
+    let mut out = vec![];
+    for (sc, bound) in scenarios(tier).into_iter().filter(|(sc, _)| sc.fresh) {
+        let cfg = ExploreCfg { bound, max_schedules: 2_000_000, deadline: None, seen: Some(Default::default()) };
+        let (st, fails) = explore_par(&sc, &cfg);
+        schedules += st.schedules;
+        for f in fails.into_iter().take(1) {
+            out.push(Violation::new(
+                format!("{}:first-connect:{:?}", f.what.split(':').next().unwrap_or(""), sc.progs),
+                f.what.clone(),
+                json!({"kind": "c09-schedule", "scenario": sc, "schedule": super::c02::trace_to_json(&f.trace), "observed": f.what}),
+            ));
+        }
+    }
+    (schedules, out)
+}
+
 pub fn run(opts: &Opts) -> i32 {
     let rep = Report::new("C09", "model_checking", opts);
     rep.set("exhaustive", true);
-    rep.set("rule", "2-4 clients of the real CloudServer over one in-memory object store run programs {add a version (walk + retry once on rejection), add two, walk from nil, add + snapshot}; every get/put/del/compare-and-swap and every list PAGE (page size 1 and 2) is a scheduling point; pairs: all interleavings, triples/quadruples: preemption bound 2 (thorough 3); start layouts: chain length 0/1/2, with a leftover loser object (sibling of the head / child of the head) or none; oracle evaluated from call results and object names only; non-trivial = executions in which a version was rejected");
+    rep.set("rule", "2-4 clients of the real CloudServer over one in-memory object store run programs {add a version (walk + retry once on rejection), add two, walk from nil, add + snapshot}; every get/put/del/compare-and-swap and every list PAGE (page size 1 and 2) is a scheduling point; pairs: all interleavings (state-key pruning, self-checked against the unpruned search where that completes), triples: preemption bound 3 (thorough: all interleavings), quadruple: bound 4; start layouts: chain length 0/1/2, with a leftover loser object (sibling of the head / child of the head) or none; oracle evaluated from call results and object names only; non-trivial = executions in which a version was rejected");
     rep.assume("in-memory Service obeys the Service trait contract (atomic single requests, compare-and-swap); cleanup disabled by fixing the random draw (C10 covers it)");
     let deadline = std::time::Instant::now() + std::time::Duration::from_secs_f64(opts.budget_s);
     let scs = scenarios(opts.tier);
@@ -362,10 +412,21 @@ pub fn run(opts: &Opts) -> i32 {
             let bound = match std::env::var("TCMC_BOUND").ok().as_deref() { Some("max") => usize::MAX, Some(n) => n.parse().unwrap_or(bound), None => bound };
             let cfg = ExploreCfg { bound, max_schedules: if quick { 400_000 } else { 20_000_000 }, deadline: Some(deadline), seen: Some(Default::default()) };
             let (st, fails) = explore_par(&sc, &cfg);
-            (sc, bound, st, fails)
+            // pruning self-check wherever the unpruned search is small enough to complete
+            let sc_cap = if quick { 4_000 } else { 300_000 };
+            let selfcheck = if fails.is_empty() && st.schedules < sc_cap / 4 { crate::explore::sched::pruning_selfcheck(&sc, bound, sc_cap) } else { None };
+            (sc, bound, st, fails, selfcheck)
         })
         .collect();
-    for (i, (sc, bound, st, fails)) in results.into_iter().enumerate() {
+    for (i, (sc, bound, st, fails, selfcheck)) in results.into_iter().enumerate() {
+        match selfcheck {
+            Some(Ok(_)) => rep.add("pruning_selfcheck_scenarios_equal_to_unpruned", 1),
+            Some(Err(e)) => {
+                eprintln!("MACHINERY ERROR: C09 state-key pruning is unsound on {:?}: {e}", sc.progs);
+                std::process::exit(2);
+            }
+            None => rep.add("pruning_selfcheck_scenarios_skipped_unpruned_too_large", 1),
+        }
         schedules += st.schedules;
         steps += st.steps;
         nontrivial += st.nontrivial_outcomes.len() as u64;
@@ -375,8 +436,8 @@ pub fn run(opts: &Opts) -> i32 {
             rep.add("scenarios_capped", 1);
         }
         if std::env::var("TCMC_VERBOSE").is_ok() || i < 2 {
-            println!("[C09] {:?} base={} page={} leftover={:?} bound={}: {} schedules, {} distinct outcomes ({} with rejection), capped={} ({:.1}s)",
-                sc.progs, sc.base_len, sc.page_size, sc.leftover, if bound == usize::MAX { "none".to_string() } else { bound.to_string() }, st.schedules, st.outcomes.len(), st.nontrivial_outcomes.len(), st.capped, rep.elapsed());
+            println!("[C09] {:?} base={} page={} leftover={:?} fresh={} bound={}: {} schedules, {} distinct outcomes ({} with rejection), capped={} ({:.1}s)",
+                sc.progs, sc.base_len, sc.page_size, sc.leftover, sc.fresh, if bound == usize::MAX { "none".to_string() } else { bound.to_string() }, st.schedules, st.outcomes.len(), st.nontrivial_outcomes.len(), st.capped, rep.elapsed());
         }
         if let Some(t) = st.sample_traces.first() {
             if i % 7 == 0 {
